@@ -39,7 +39,10 @@ class Witness:
         return result
 
     def has_annex(self):
-        return len(self.items) and self.items[-1][0] == 0x50
+        # BIP341: at least two elements and the last one starts with 0x50
+        if len(self.items) < 2 or len(self.items[-1]) == 0:
+            return False
+        return self.items[-1][0] == 0x50
 
     def control_block(self):
         if self.has_annex():
